@@ -62,68 +62,120 @@ theorem freshNat_not_mem (l : List Nat) : freshNat l ∉ l := by
   unfold freshNat at this
   omega
 
-/-- Finite expression trees over the C04 operations. -/
+/-- `_minify` names its states by blocks and keys its rows by the same names. -/
+theorem minifyCore_keys {σ : Type} [DecidableEq σ] (kept : List σ) (syms : List α)
+    (trans : List (σ × List (α × σ))) (init : σ) (finals : List σ) (pick : List Nat → Nat) :
+    akeys (minifyCore kept syms trans init finals pick).trans =
+      (minifyCore kept syms trans init finals pick).states := by
+  unfold minifyCore
+  simp only []
+  split
+  · rfl
+  · simp [akeys, List.map_map, Function.comp_def]
+
+theorem binopMin_keys {op : BinOp} {A B : DFA σ α} {pick : List Nat → Nat} {M : DFA (MinName (PState σ)) α}
+    (h : A.binopMin op B pick = .ok M) : akeys M.trans = M.states := by
+  unfold binopMin at h
+  split at h
+  · cases h
+  · cases h; exact minifyCore_keys _ _ _ _ _ _
+
+theorem complementMinFull_keys {d : DFA σ α} {trap : σ} {pick : List Nat → Nat} {M : DFA (MinName σ) α}
+    (h : d.complementMinFull trap pick = .ok M) : akeys M.trans = M.states := by
+  unfold complementMinFull at h
+  split at h
+  · cases h; exact minifyCore_keys _ _ _ _ _ _
+  · cases h
+
+theorem toPartialMin_keys (d : DFA σ α) (pick : List Nat → Nat) :
+    akeys (d.toPartialMin pick).trans = (d.toPartialMin pick).states :=
+  minifyCore_keys _ _ _ _ _ _
+
+/-- Finite expression trees over the C04 operations; the flags are the `minify` option of
+the node (`retain_names=False` throughout, so that every intermediate result is renamed
+into `DFA Nat α`). -/
 inductive DFAExpr (α : Type)
   | leaf (d : DFA Nat α)
-  | binop (op : BinOp) (l r : DFAExpr α)
-  | compl (e : DFAExpr α)
-  | toPartial (e : DFAExpr α)
+  | binop (op : BinOp) (minify : Bool) (l r : DFAExpr α)
+  | compl (minify : Bool) (e : DFAExpr α)
+  | toPartial (minify : Bool) (e : DFAExpr α)
   | toComplete (e : DFAExpr α)
 
 namespace DFAExpr
 
-abbrev union (l r : DFAExpr α) : DFAExpr α := .binop .union l r
-abbrev inter (l r : DFAExpr α) : DFAExpr α := .binop .inter l r
-abbrev diff (l r : DFAExpr α) : DFAExpr α := .binop .diff l r
-abbrev symm (l r : DFAExpr α) : DFAExpr α := .binop .symm l r
+abbrev union (l r : DFAExpr α) (minify : Bool := false) : DFAExpr α := .binop .union minify l r
+abbrev inter (l r : DFAExpr α) (minify : Bool := false) : DFAExpr α := .binop .inter minify l r
+abbrev diff (l r : DFAExpr α) (minify : Bool := false) : DFAExpr α := .binop .diff minify l r
+abbrev symm (l r : DFAExpr α) (minify : Bool := false) : DFAExpr α := .binop .symm minify l r
 
-/-- Evaluation with the model of the code (`retain_names=False, minify=False`);
-`trapOf states` is the trap name `_get_trap_state_id` picks. -/
-def eval (trapOf : List Nat → Nat) : DFAExpr α → Res (DFA Nat α)
+/-- `.ok` results are renamed by discovery index (`retain_names=False`). -/
+def renumberRes {S : Type} [DecidableEq S] : Res (DFA S α) → Res (DFA Nat α)
+  | .ok R => .ok R.renumber
+  | .error e => .error e
+
+/-- Evaluation with the model of the code (`retain_names=False`); `trapOf states` is the
+trap name `_get_trap_state_id` picks, `pick` the arbitrary `set.pop()` of `_minify`.  For a
+minified result the code's names are `enumerate(blocks)`, here the index in the state list:
+the same DFA up to an injective renaming. -/
+def eval (trapOf : List Nat → Nat) (pick : List Nat → Nat) : DFAExpr α → Res (DFA Nat α)
   | leaf d => .ok d
-  | binop op l r =>
-    match eval trapOf l, eval trapOf r with
+  | binop op m l r =>
+    match eval trapOf pick l, eval trapOf pick r with
     | .ok A, .ok B =>
-      (match A.binopPlain op B with
-       | .ok R => .ok R.renumber
-       | .error e => .error e)
+      (match m with
+       | false => renumberRes (A.binopPlain op B)
+       | true => renumberRes (A.binopMin op B pick))
     | .error e, _ => .error e
     | .ok _, .error e => .error e
-  | compl e =>
-    match eval trapOf e with
-    | .ok A => A.complementFull (trapOf A.states)
+  | compl m e =>
+    match eval trapOf pick e with
+    | .ok A =>
+      (match m with
+       | false => A.complementFull (trapOf A.states)
+       | true => renumberRes (A.complementMinFull (trapOf A.states) pick))
     | .error x => .error x
-  | toPartial e =>
-    match eval trapOf e with
-    | .ok A => .ok A.toPartialPlain
+  | toPartial m e =>
+    match eval trapOf pick e with
+    | .ok A =>
+      (match m with
+       | false => .ok A.toPartialPlain
+       | true => .ok (A.toPartialMin pick).renumber)
     | .error x => .error x
   | toComplete e =>
-    match eval trapOf e with
+    match eval trapOf pick e with
     | .ok A => A.toComplete (trapOf A.states) false
     | .error x => .error x
 
 /-- The set expression denoted by a tree, on verdicts; complement is relative to `Sg*`. -/
 def denote (Sg : List α) : DFAExpr α → List α → Bool
   | leaf d, w => d.accepts w
-  | binop op l r, w => op.fin (denote Sg l w) (denote Sg r w)
-  | compl e, w => (w.all fun a => decide (a ∈ Sg)) && !denote Sg e w
-  | toPartial e, w => denote Sg e w
+  | binop op _ l r, w => op.fin (denote Sg l w) (denote Sg r w)
+  | compl _ e, w => (w.all fun a => decide (a ∈ Sg)) && !denote Sg e w
+  | toPartial _ e, w => denote Sg e w
   | toComplete e, w => denote Sg e w
 
 /-- Every leaf is a valid duplicate-free DFA over the alphabet `Sg`. -/
 def LeavesOk (Sg : List α) : DFAExpr α → Prop
   | leaf d => d.validate = .ok () ∧ d.PyShape ∧ ∀ a, a ∈ d.syms ↔ a ∈ Sg
-  | binop _ l r => LeavesOk Sg l ∧ LeavesOk Sg r
-  | compl e => LeavesOk Sg e
-  | toPartial e => LeavesOk Sg e
+  | binop _ _ l r => LeavesOk Sg l ∧ LeavesOk Sg r
+  | compl _ e => LeavesOk Sg e
+  | toPartial _ e => LeavesOk Sg e
   | toComplete e => LeavesOk Sg e
+
+/-- Some node of the tree has `minify=True`. -/
+def usesMinify : DFAExpr α → Bool
+  | leaf _ => false
+  | binop _ m l r => m || usesMinify l || usesMinify r
+  | compl m e => m || usesMinify e
+  | toPartial m e => m || usesMinify e
+  | toComplete e => usesMinify e
 
 /-- Number of operation nodes. -/
 def size : DFAExpr α → Nat
   | leaf _ => 0
-  | binop _ l r => size l + size r + 1
-  | compl e => size e + 1
-  | toPartial e => size e + 1
+  | binop _ _ l r => size l + size r + 1
+  | compl _ e => size e + 1
+  | toPartial _ e => size e + 1
   | toComplete e => size e + 1
 
 end DFAExpr
